@@ -71,7 +71,7 @@ def generate(seed, tier="quick"):
     prog = W.gen_program(rng, prof, {"prev": ["none", "other", "edit", "edit", "slack", "subset", "superset", "same"], "n_files": (1, 2), "n_sites": (1, 4),
                                      "n_tests": (1, 3), "styles": ["assert", "rec"], "hand": 0.3, "layout": False, "places": ["direct", "direct", "func", "module", "helper_arg"]})
     frng = sub(seed, "flags")
-    steps = [frng.choice([["create", "fix"], list(CATS), ["fix"], ["create"], ["fix", "trim"], ["update"]]) for _ in range(frng.choice([1, 1, 2]))]
+    steps = [frng.choice([["create", "fix"], list(CATS), ["fix"], ["create"], ["fix", "trim"], ["update"], ["trim"], ["trim"]]) for _ in range(frng.choice([1, 1, 2]))]
     lrng = sub(seed, "layout")
     # the test files live in a sub-package with its own pyproject.toml that has no [tool.black] table: the project's options are still the ones of the
     # pyproject.toml in the directory pytest was started in (black skips files without its table)
